@@ -151,7 +151,7 @@ LEVEL_TEXT["C11"] = ("Seeded exploration of scripted playlist histories and netw
 NOT_APPLICABLE.pop("C11", None)
 
 META["C12"] = {"level": "fault_enumeration",
-   "rule": "fault-sweep profile: for each sampled scenario (stub origin: container, mode, renditions, byte ranges, latencies) one fault is placed at every request index 0..39 in turn for each of the kinds status != 200, transport error and stalled body (followed by a user Close), plus an OnTracks error: 160 runs per scenario. close-sweep profile: for each sampled scenario Close is placed at every scheduler event 1..200 in turn (1-3 Close calls, optionally racing an injected fault; positions past the end close after EOS). Non-trivial = the fault fired / a Close was placed; distinct = distinct signatures of scenario + position + observations.",
+   "rule": "fault-sweep profile: for each sampled scenario (stub origin: container, mode, renditions, byte ranges, latencies) one fault is placed at every request index 0..39 in turn for each of the kinds status != 200, transport error, stalled body and never-answered request (both followed by a user Close), plus an OnTracks error: 200 runs per scenario. close-sweep profile: for each sampled scenario Close is placed at every scheduler event 1..200 in turn (1-3 Close calls, optionally racing an injected fault; positions past the end close after EOS). Non-trivial = the fault fired / a Close was placed; distinct = distinct signatures of scenario + position + observations.",
    "real": CLI_REAL, "stub": CLI_STUB,
    "assumptions": CLI_ASSUME + ["scenarios (origins, latencies) are sampled; within a scenario the fault position and the Close position are enumerated exhaustively up to the stated bounds (40 requests, 200 events)",
                                 "goroutine leaks are decided from runtime.Stack of all goroutines filtered to gohlslib client frames, at rest, after Wait yielded"]}
@@ -192,3 +192,7 @@ META["C11"]["rule"] += (" ll-muxer profile: the real Low-Latency muxer as origin
                         "reload must carry _HLS_skip=YES exactly when the first playlist advertised CAN-SKIP-UNTIL and every media "
                         "download must be the preload hint of the latest playlist of its stream, one per playlist.")
 META["C11"]["real"] = CLI_REAL + ["ll-muxer profile: the real gohlslib Muxer as origin"]
+
+META["C05"]["rule"] += (" held profile: reader tasks are parked at the yield hooks between handler lookup and call and between opening a segment/part "
+                        "reader and copying it while the writer finalises, rotates or expires that object (small window), then resumed: a 200 "
+                        "response must carry exactly the bytes the object had when it was listed.")
